@@ -455,7 +455,7 @@ var scenarios = []*scenario{
   (channel-pop d)
   (list r1 r2))`,
 		check: nil, canon: rawVal},
-	{name: "d3-defmethod-vs-first-call", group: "d", yield: false, quick: -1, thorough: -1,
+	{name: "d3-defmethod-vs-first-call", group: "d", yield: false, quick: 3, thorough: 5,
 		src: `(progn
   (defgeneric @G (a))
   (defmethod @G ((a real)) 'real-method)
@@ -475,7 +475,7 @@ var scenarios = []*scenario{
 			return []string{"stale-dispatch: after defmethod completed the calls gave " + o.val + "; (real|fixnum fixnum real) required"}
 		},
 		canon: func(o *obs) string { return "completed" }},
-	{name: "d4-remove-method-vs-call", group: "d", yield: false, quick: -1, thorough: -1,
+	{name: "d4-remove-method-vs-call", group: "d", yield: false, quick: 3, thorough: 5,
 		src: `(progn
   (defgeneric @G (a))
   (defmethod @G ((a real)) 'real-method)
@@ -496,7 +496,7 @@ var scenarios = []*scenario{
 			return []string{"stale-dispatch: after remove-method completed the calls gave " + o.val + "; (real|fixnum real real) required"}
 		},
 		canon: func(o *obs) string { return "completed" }},
-	{name: "d5-before-daemon-vs-call", group: "d", yield: false, quick: -1, thorough: -1,
+	{name: "d5-before-daemon-vs-call", group: "d", yield: false, quick: 3, thorough: 5,
 		src: `(progn
   (defgeneric @G (a))
   (defmethod @G ((a real)) (tr 'primary) 'real-method)
